@@ -74,6 +74,7 @@ package vm
 //@   ensures appended [C10 C13]: !repeat ==> len(c.changes[callIdx]) == len(before) + 1 && sameslice(c.changes[callIdx][len(before)], newVal)
 //@   ensures prefix-kept [C10 C13]: forall i uint64 :: i < uint64(len(before)) ==> sameslice(c.changes[callIdx][i], before[i])
 //@   ensures other-calls-untouched [C10 C13]: forall k uint64 :: k != callIdx ==> has(c.changes, k) == old(has(c.changes, k)) && sameslice(c.changes[k], old(c.changes[k]))
+//@   ensures work-bounded [C20]: work <= old(work) + uint64(len(newVal)) + 8
 //@   modifies cell:[]byte, map:map[uint64][][]byte
 //@ end
 
@@ -81,6 +82,7 @@ package vm
 //@   verify
 //@   safety [C03]
 //@   requires recv: k != nil
+//@   ensures work-bounded [C20]: work <= old(work) + uint64(len(newVal)) + 16
 //@   modifies cell:[]byte, map:map[uint64][][]byte, vm.StorageKey.changes, vm.StorageKey.nodeType
 //@ end
 
@@ -91,6 +93,7 @@ package vm
 //@   ensures result [C03 C11]: err == nil && out != nil && out.slot != nil && (out == child || out == old(k.children[*child.slot][child.offset]))
 //@   ensures reachable-by-index [C11]: k.childrenIndex[strof(child.data)] != nil && (old(k.childrenIndex[strof(child.data)]) != nil ==> k.childrenIndex[strof(child.data)] == old(k.childrenIndex[strof(child.data)]))
 //@   ensures location-registered [C11]: k.children[*child.slot][child.offset] == out
+//@   ensures work-bounded [C20]: work <= old(work) + uint64(len(child.data)) + 8
 //@   modifies map:map[string]*vm.StorageKey, map:map[uint256.Int]map[uint8]*vm.StorageKey, map:map[uint8]*vm.StorageKey
 //@ end
 
@@ -129,6 +132,7 @@ package vm
 //@   safety [C03]
 //@   requires recv: s != nil && slot != nil
 //@   ensures view [C03 C11]: result == s.index[account][*slot][offset][typeId]
+//@   ensures work-bounded [C20]: work <= old(work)
 //@ end
 
 // ---------------------------------------------------------------------------
@@ -139,6 +143,7 @@ package vm
 //@   requires recv: s != nil && slot != nil && key != nil && key.slot != nil
 //@   ensures registered [C11]: s.index[account][*slot][offset][key.typeId] != nil
 //@   ensures first-registration-wins [C11]: (old(s.index[account][*slot][offset][key.typeId]) == nil ==> s.index[account][*slot][offset][key.typeId] == key) && (old(s.index[account][*slot][offset][key.typeId]) != nil ==> s.index[account][*slot][offset][key.typeId] == old(s.index[account][*slot][offset][key.typeId]))
+//@   ensures work-bounded [C20]: work <= old(work)
 //@   modifies map:map[common.Address]map[uint256.Int]map[uint8]map[common.Hash]*vm.StorageKey, map:map[uint256.Int]map[uint8]map[common.Hash]*vm.StorageKey, map:map[uint8]map[common.Hash]*vm.StorageKey, map:map[common.Hash]*vm.StorageKey
 //@ end
 
@@ -159,6 +164,7 @@ package vm
 //@   ensures visible-by-slot [C11]: !old(offBad) && !parentMissing ==> s.index[account][*self][old(off8)][typeId] != nil
 //@   ensures visible-by-index [C11]: !old(offBad) && !parentMissing ==> holder != nil && holder.childrenIndex[strof(index)] != nil
 //@   ensures by-index-and-by-slot-agree [C11]: !old(offBad) && !parentMissing ==> holder.childrenIndex[strof(index)] == s.index[account][*self][old(off8)][typeId]
+//@   ensures work-bounded [C20]: work <= old(work) + uint64(len(index)) + 64
 //@   modifies map:map[common.Address]map[uint256.Int]map[uint8]map[common.Hash]*vm.StorageKey, map:map[uint256.Int]map[uint8]map[common.Hash]*vm.StorageKey, map:map[uint8]map[common.Hash]*vm.StorageKey, map:map[common.Hash]*vm.StorageKey, map:map[string]*vm.StorageKey, map:map[uint256.Int]map[uint8]*vm.StorageKey, map:map[uint8]*vm.StorageKey, map:map[common.Address]*vm.StorageKey
 //@ end
 
@@ -175,6 +181,7 @@ package vm
 //@   assertcall (*vm.StorageKey).JournalChanges journals-on-the-indexed-node [C11 C10]: j == 0 && !refused && $0 == node && $1 == callIdx && sameslice($2, newVal)
 //@   ensures unregistered-refused [C11]: old(refused) ==> err != nil && j == 0 && unchanged("cell:[]byte", "map:map[uint64][][]byte", "vm.StorageKey.changes", "vm.StorageKey.nodeType")
 //@   ensures registered-journaled [C11]: !old(refused) ==> err == nil && j == 1
+//@   ensures work-bounded [C20]: work <= old(work) + uint64(len(newVal)) + 32
 //@   modifies cell:[]byte, map:map[uint64][][]byte, vm.StorageKey.changes, vm.StorageKey.nodeType
 //@ end
 
@@ -291,6 +298,7 @@ package vm
 //@   safety [C03]
 //@   requires recv: t != nil
 //@   ensures innermost-open-call [C10 C13]: (t.callTree.current != nil ==> idx == t.callTree.current.Index) && (t.callTree.current == nil ==> idx == 0)
+//@   ensures work-bounded [C20]: work <= old(work)
 //@ end
 
 // C13: the balance journal brackets the transfer: read(from), read(to), transfer exactly once with the same
@@ -323,6 +331,7 @@ package vm
 //@   safety [C03]
 //@   requires recv: t != nil && t.states != nil && t.callTree != nil && slot != nil
 //@   assertcall (*vm.StateChanges).saveChange stamps-current-call [C10]: $0 == t.states && $1 == account && $2 == slot && $3 == offset && $4 == typeId && sameslice($6, newVal) && (t.callTree.current != nil ==> $5 == t.callTree.current.Index) && (t.callTree.current == nil ==> $5 == 0)
+//@   ensures work-bounded [C20]: work <= old(work) + uint64(len(newVal)) + 40
 //@   modifies cell:[]byte, map:map[uint64][][]byte, vm.StorageKey.changes, vm.StorageKey.nodeType
 //@ end
 //@ func (*vm.Tracer).SaveRawStateChange
@@ -351,13 +360,15 @@ package vm
 //@ func vm.NewRootKey
 //@   verify
 //@   safety [C03]
+//@   ensures work-bounded [C20]: work <= old(work)
 //@ end
 
 //@ func vm.NewBranchKey
 //@   verify
 //@   safety [C03]
 //@   requires slot: slot != nil
-//@   ensures fresh [C03 C11]: result != nil && fresh(result) && result.slot == slot && result.offset == offset && result.typeId == typeId && sameslice(result.data, data) && result.changes == nil
+//@   ensures fresh [C03 C11 C20]: result != nil && fresh(result) && result.slot == slot && result.offset == offset && result.typeId == typeId && sameslice(result.data, data) && result.changes == nil
+//@   ensures work-bounded [C20]: work <= old(work)
 //@ end
 
 //@ func vm.newStorageChange
